@@ -181,7 +181,8 @@ def safe_check(mod, case):
             r = _oeo(mod, case, case["oeo"]) or ok("oeo-n/a")
         else:
             eligible = getattr(mod, "OEO", False) and isinstance(case, dict) and isinstance(case.get("a"), dict)
-            oeo = eligible and _stride(case, 3)
+            edits = ("swap_labels", "assign_cell") if getattr(mod, "OEO", False) is True else tuple(e for e in (getattr(mod, "OEO", ()) or ()) if e != "decoy")
+            oeo = eligible and bool(edits) and _stride(case, 3)
             # decoy pre-pass: the same calls on a look-alike array first (same dims, sizes, end labels - other labels in between, other
             # values), result ignored: whatever the library remembers under a key coarser than the full content now belongs to the decoy
             if eligible and (case.get("decoy") or (not oeo and _stride(case, 4))):
@@ -198,8 +199,8 @@ def safe_check(mod, case):
             r = mod.check(case)
             if oeo and r["ok"] and not r.get("unspecified"):
                 how = "swap_labels" if _stride(case, 2) else "assign_cell"      # one edit per case (the array is edited for good)
-                if isinstance(mod.OEO, (tuple, list)) and how not in mod.OEO:     # a module may restrict the edits (arguments that embed labels)
-                    how = mod.OEO[0]
+                if how not in edits:     # a module may restrict the edits (arguments that embed labels)
+                    how = edits[0]
                 r2 = _oeo(mod, case, how)
                 if r2 is not None and not r2["ok"]:
                     case["oeo"] = how
